@@ -51,9 +51,37 @@ class CustomWithArgs(Exception):
 EXC = {"ValueError": ValueError, "KeyError": KeyError, "Custom": CustomFault, "CustomStop": CustomStop, "CustomWithArgs": CustomWithArgs}
 
 
-def chunk_of(i, binary):
-    s = f"element-{i}\n"
+def chunk_of(i, binary, field_fault=False):
+    s = f"element;{i}\n" if field_fault else f"element-{i}\n"
     return s.encode() if binary else s
+
+
+def make_field_fault_family(k, exc_obj, direction):
+    """register family, text storage, a LINE declared with a delimiter, and the fault raised from
+    INSIDE one of the register's fields (a user Field subclass): the element's own read/write are
+    the framework's"""
+    from cfinterface.components.defaultregister import DefaultRegister as Dflt
+    from cfinterface.components.integerfield import IntegerField
+    from cfinterface.components.line import Line
+    from cfinterface.components.register import Register
+    from cfinterface.data.registerdata import RegisterData as Data
+    from cfinterface.files.registerfile import RegisterFile
+
+    class FaultInt(IntegerField):
+        def _textual_write(self):
+            if direction == "write" and self.value == k:
+                raise exc_obj
+            return super()._textual_write()
+
+        def _textual_read(self, line):
+            v = super()._textual_read(line)
+            if direction == "read" and v == k:
+                raise exc_obj
+            return v
+
+    E = type("E", (Register,), {"IDENTIFIER": "element", "IDENTIFIER_DIGITS": 7, "LINE": Line([FaultInt(3, 8)], delimiter=";"), "__slots__": []})
+    F = type("F", (RegisterFile,), {"REGISTERS": [E], "STORAGE": "TEXT", "__slots__": []})
+    return E, F, Data, Dflt
 
 
 def make_family(fam, binary, k, exc_obj, direction, iter_read=False):
@@ -154,19 +182,23 @@ def run_impl(case):
     exc_obj = EXC[case["exc"]]("injected fault") if k is not None else None
     d = tempfile.mkdtemp(prefix="cfi-c17-")
     try:
-        E, F, Data, Dflt = make_family(fam, binary, k, exc_obj, direction, case.get("iter_read", False))
-        expected_prefix = (b"" if binary else "").join(chunk_of(i, binary) for i in range(n if k is None else k))
+        ff = bool(case.get("field_fault"))
+        if ff:
+            E, F, Data, Dflt = make_field_fault_family(k, exc_obj, direction)
+        else:
+            E, F, Data, Dflt = make_family(fam, binary, k, exc_obj, direction, case.get("iter_read", False))
+        expected_prefix = (b"" if binary else "").join(chunk_of(i, binary, ff) for i in range(n if k is None else k))
         raised = None
         out = {"buffer_closed": False, "buffer_at_end": True, "output_is_prefix": True}
         if direction == "write":
             data = Data(Dflt(data=b"" if (binary and fam != "register") else ""))
             for i in range(n):
-                data.append(E(data=i))
+                data.append(E(data=[i]) if ff else E(data=i))
             f = F(data=data)
             dest_path = os.path.join(d, "out.dat")
             if where == "existingpath":
                 # the destination already holds a longer, earlier output (read - edit - save again)
-                full = (b"" if binary else "").join(chunk_of(i, binary) for i in range(n + 3))
+                full = (b"" if binary else "").join(chunk_of(i, binary, ff) for i in range(n + 3))
                 with open(dest_path, "wb") as fh:
                     fh.write((full if binary else full.encode("utf-8")) + b"# stale tail of an earlier save\n")
             if where == "callerfile":
@@ -198,7 +230,7 @@ def run_impl(case):
                     out["buffer_at_end"] = buf.tell() == len(expected_prefix)
                     out["output_is_prefix"] = buf.getvalue() == expected_prefix
         else:
-            content = (b"" if binary else "").join(chunk_of(i, binary) for i in range(n))
+            content = (b"" if binary else "").join(chunk_of(i, binary, ff) for i in range(n))
             if fam == "section":
                 F.SECTIONS = [E] * n
             src = content
@@ -295,6 +327,8 @@ def all_cases():
                                 if k is None and exc != "ValueError":
                                     continue
                                 yield {"family": fam, "binary": binary, "direction": direction, "where": where, "n": n, "k": k, "exc": exc}
+                                if fam == "register" and not binary and k is not None and exc in ("KeyError", "Custom") and where in ("path", "buffer"):
+                                    yield {"family": fam, "binary": binary, "direction": direction, "where": where, "n": n, "k": k, "exc": exc, "field_fault": True}
                                 if direction == "read" and k is not None and exc in ("ValueError", "Custom"):
                                     yield {"family": fam, "binary": binary, "direction": direction, "where": where, "n": n, "k": k, "exc": exc, "iter_read": True}
 
